@@ -17,7 +17,7 @@ from __future__ import annotations
 
 import ast
 
-from core.guards import atom, atoms_of, conds_formula, f_not, implies, satisfiable
+from core.guards import atom, atoms_of, conds_formula, f_not, f_or, implies, satisfiable
 from core.loader import AnalysisError, FuncInfo, Repo, norm
 from core.report import Result
 
@@ -45,12 +45,39 @@ def _orientation_subst(sh: Shapes):
     return extra
 
 
-def _result_productions(view: FuncInfo) -> list[Production]:
+def _result_productions(view: FuncInfo, sh: Shapes | None = None) -> list[Production]:
     out: list[Production] = []
     for n in all_nodes(view):
         if isinstance(n, ast.Return) and n.value is not None and not _is_empty_literal(n.value):
-            out += productions(view, n.value)
+            got = productions(view, n.value)
+            if sh is not None and not any(p.elt is not None and any(t[0] == "K" for t in sh.tags(p.elt)) for p in got) and any(t[0] in ("KS", "K") for t in sh.tags(n.value)):
+                # keys are returned wholesale (`set(product(data.keys(), ..))`, `set(map(f, missing))`): one event, the return
+                src = _strip(n.value)
+                inner = None
+                if isinstance(src, ast.Call) and isinstance(src.func, ast.Name) and src.func.id == "map" and len(src.args) == 2:
+                    inner = _strip(src.args[1])
+                if isinstance(inner, ast.Name) and inner.id not in view.param_names:
+                    sub = [q for q in productions(view, inner) if q.elt is not None and any(t[0] == "K" for t in sh.tags(q.elt))]
+                    if sub:
+                        got = [Production(q.elt, q.loops, conds(view, n) + q.conds, q.node) for q in sub]
+                        out += got
+                        continue
+                got = [Production(n.value, [], conds(view, n), n)]
+            out += got
     return out
+
+
+FLATTENERS = {"from_iterable", "chain", "list", "set", "sorted", "tuple", "frozenset", "reversed", "iter"}
+
+
+def _strip(e: ast.expr) -> ast.expr:
+    """The collection underneath list() / set() / chain.from_iterable() / chain(*x) wrappers."""
+    while isinstance(e, ast.Call) and e.args:
+        nm = e.func.attr if isinstance(e.func, ast.Attribute) else e.func.id if isinstance(e.func, ast.Name) else ""
+        if nm not in FLATTENERS or len(e.args) != 1:
+            break
+        e = e.args[0].value if isinstance(e.args[0], ast.Starred) else e.args[0]
+    return e
 
 
 def _deep_conds(view: FuncInfo, sh: Shapes, p: Production, depth: int = 0) -> list[list]:
@@ -60,9 +87,7 @@ def _deep_conds(view: FuncInfo, sh: Shapes, p: Production, depth: int = 0) -> li
     if depth > 2:
         return [base]
     for _t, it in p.loops:
-        src = it
-        while isinstance(src, ast.Call) and isinstance(src.func, ast.Name) and src.func.id in ("list", "set", "sorted", "tuple", "frozenset", "reversed") and len(src.args) == 1:
-            src = src.args[0]
+        src = _strip(it)
         if isinstance(src, ast.Name) and src.id not in view.param_names:
             inner = [q for q in productions(view, src) if q.elt is not None]
             if inner and all(q.node is not p.node for q in inner):
@@ -95,8 +120,8 @@ def check_detector(repo: Repo, res: Result) -> None:
         src = "E" if b.source == "explicit" else "O"
         view = dview(repo, m, ld, allow, tag="ld")
         sh = Shapes(repo, T, view, {data: {D(src)}}, recv=ld, allow=allow)
-        prods = _result_productions(view)
-        keyp = [p for p in prods if p.elt is not None and any(t[0] == "K" for t in sh.tags(p.elt))]
+        prods = _result_productions(view, sh)
+        keyp = [p for p in prods if p.elt is not None and any(t[0] in ("K", "KS") for t in sh.tags(p.elt))]
         pairs = [t for t in sh.ret if t[0] == "L"]
         mode = "present" if pairs and not keyp else ("absent" if keyp and not pairs else ("mixed" if keyp and pairs else "unknown"))
         head = f"{m.relpath}::{getattr(view, 'shown', m.qualname)}"
@@ -151,7 +176,7 @@ def check_detector(repo: Repo, res: Result) -> None:
             else:
                 res.add("C05.R4", f"{head}::{b.field} lenient", bool(ok3 and ok4), "a layer is satisfied by any realised import into it" if ok3 and ok4 else why, where(m, m.node), kind="structural")
             # orientation of the grouping
-            for verdict, construct, detail, wh in _orientation(repo, view, sh):
+            for verdict, construct, detail, wh in [x for s_ in _all_shapes(sh) for x in _orientation(repo, s_.view, s_)]:
                 if construct in seen_orient:
                     continue
                 seen_orient.add(construct)
@@ -176,8 +201,30 @@ def _absent_guard(view: FuncInfo, sh: Shapes, keyp: list[Production], jmap: dict
             scope = "" if (src == "O" or j.grp) else ":ALL-LAYERS"
             a_any, a_all = atom(f"ANY:{src}{scope}:{j.clean if src == 'O' else ''}"), atom(f"ALL:{src}{scope}")
             return {"any": a_any, "none": f_not(a_any), "all": a_all, "some-empty": f_not(a_all)}[j.kind]
+        if isinstance(e, ast.Compare) and len(e.ops) == 1 and isinstance(e.ops[0], (ast.In, ast.NotIn)):
+            # membership in a locally built collection: the condition under which its elements were put there
+            coll = _strip(e.comparators[0])
+            if isinstance(coll, ast.Name) and coll.id not in view.param_names and coll.id not in _membership_stack:
+                prods = [q for q in productions(view, coll) if q.elt is not None]
+                if prods and not any(q.elt is None for q in productions(view, coll)):
+                    _membership_stack.append(coll.id)
+                    try:
+                        alts = []
+                        for q in prods:
+                            f_q = conds_formula(q.conds, subst)
+                            if sh._keyed_by_data(q.node if isinstance(q.node, ast.stmt) else _stmt(q.node)) == src:
+                                # filled once per key of the dependency dictionary: membership is an existential over the keys
+                                f_q = _lift(f_q, src)
+                                if f_q is None:
+                                    return None
+                            alts.append(f_q)
+                    finally:
+                        _membership_stack.pop()
+                    f = f_or(alts)
+                    return f if isinstance(e.ops[0], ast.In) else f_not(f)
         return None
 
+    _membership_stack: list[str] = []
     subst = sh.guard_subst(extra)
     want = atom(f"ANY:{src}:{True if src == 'O' else ''}")
     if not keyp:
@@ -216,6 +263,50 @@ def _absent_guard(view: FuncInfo, sh: Shapes, keyp: list[Production], jmap: dict
     return worst
 
 
+def _all_shapes(sh: Shapes) -> list[Shapes]:
+    out = [sh]
+    for s in getattr(sh, "sub_shapes", []):
+        out += _all_shapes(s)
+    return out
+
+
+def _stmt(n: ast.AST) -> ast.AST:
+    from .common import stmt_of
+
+    return stmt_of(n)
+
+
+def _nnf(f, neg: bool = False):
+    tag = f[0]
+    if tag == "const":
+        return ("const", f[1] != neg)
+    if tag == "atom":
+        return ("not", f) if neg else f
+    if tag == "not":
+        return _nnf(f[1], not neg)
+    parts = [_nnf(g, neg) for g in f[1]]
+    if (tag == "and") != neg:
+        return ("and", parts)
+    return ("or", parts)
+
+
+def _lift(f, src: str):
+    """Existential lifting over the keys: 'this key has a realisation' becomes 'some key of the layer has one';
+    'this key has none' becomes 'not all keys of the layer have one'. None when the formula mixes the two under a conjunction."""
+    f = _nnf(f)
+
+    def go(g):
+        if g[0] == "atom" and g[1].startswith(f"ONE:{src}"):
+            return atom(f"ANY:{src}:{True if src == 'O' else ''}")
+        if g[0] == "not" and g[1][0] == "atom" and g[1][1].startswith(f"ONE:{src}"):
+            return f_not(atom(f"ALL:{src}"))
+        if g[0] in ("and", "or"):
+            return (g[0], [go(x) for x in g[1]])
+        return g
+
+    return go(f)
+
+
 def _is_gating(view: FuncInfo, sh: Shapes, c: ast.expr) -> bool:
     """The condition cannot hide a decision about realised pairs: it only reads parameters that carry no dependency data,
     fields of the detector, or asks whether a dictionary of dependencies has *keys* (`if not group: continue`)."""
@@ -235,7 +326,7 @@ def _is_gating(view: FuncInfo, sh: Shapes, c: ast.expr) -> bool:
                 return False
             if x.id in view.param_names:
                 continue
-            if ts and all(t[0] in ("D", "G", "K", "KS", "KE", "KN", "DS", "GI") for t in ts):
+            if ts and all(t[0] in ("D", "G", "K", "KS", "KE", "KN", "DS", "GI", "GK", "KCNT", "KCNTV", "KSS") for t in ts):
                 continue
             v = single_value(view, x)
             if v is not x and isinstance(v, ast.Attribute) and isinstance(v.value, (ast.Name, ast.Attribute)):
